@@ -241,6 +241,14 @@ def ungroupify (grouping : Option (List (List Nat))) (nested : List SubRes) : Li
     let writes := groupWrites gs nested
     (List.range len).map (fun i => (writes.reverse.find? (fun w => w.1 == i)).map (·.2))
 
+/-- number of groups of a (validated) grouping -/
+def nGroups (grouping : List Nat) : Nat := ((createGroupingMap grouping).map List.length).getD 0
+/-- `len(answers) == len(self.grouping)`: one answer per group -/
+def groupsMatch (grouping : List Nat) (nAnswers : Nat) : Bool :=
+  match createGroupingMap grouping with
+  | some gs => nAnswers == gs.length
+  | none => true
+
 structure LCfg where
   ordered : Bool
   partialCredit : Bool
@@ -259,6 +267,9 @@ def performCheck (cfg : LCfg) (sub : Nat → α → GInput → M SubRes) (answer
     if cfg.grouping.length != student.length then
       throw (.config ("Grouping indicates " ++ toString cfg.grouping.length ++ " inputs are expected, but only " ++
         toString student.length ++ " inputs exist."))
+    if !groupsMatch cfg.grouping answers.length then
+      throw (.config ("Grouping indicates " ++ toString (nGroups cfg.grouping) ++ " groups of inputs, but " ++
+        toString answers.length ++ " answers were provided."))
   else if answers.length != student.length then
     throw (.config ("The number of answers (" ++ toString answers.length ++ ") and the number of inputs (" ++
       toString student.length ++ ") are different"))
